@@ -104,7 +104,9 @@ def run_state(desc):
     finally:
         instr.uninstrument([A, B])
     inter, t, u, pos = res
-    if bool(inter) != bool(flag2):
+    shallow = gs.PLACEMENTS[desc["pl"]][0] == "pen" and gs.PLACEMENTS[desc["pl"]][1] < 1e-3
+    if bool(inter) != bool(flag2) and not shallow:
+        # (interpenetrations of 1e-6 / 1e-7 are inside the grazing band in which either boolean is acceptable, see C02)
         viol.append(_viol("flag_differs_from_mpr_intersection", cls, {"penetration": bool(inter), "intersection": bool(flag2)}))
     truth = s["truth"]
     if not inter:
